@@ -176,6 +176,21 @@ pub fn generate<W: Write>(c: &mut Cases<W>, rng: &mut Rng, thorough: bool, with_
             emit(c, &cfg, &es, with_old);
         }
     }
+    // large blocks: a value far larger than any internal buffer of the codecs (and incompressible),
+    // next to small entries, for every codec at a low and a higher level
+    for codec in CODECS {
+        for level in [0u32, 6] {
+            let cfg = FileCfg { codec, level, block_size: 1024, levels: 1, ..base.clone() };
+            let mut big = vec![0u8; 100_000];
+            let mut x = 0x9E3779B97F4A7C15u64;
+            for b in big.iter_mut() {
+                x ^= x << 13; x ^= x >> 7; x ^= x << 17;
+                *b = (x >> 32) as u8;
+            }
+            let es = vec![(vec![1u8], vec![5u8; 10]), (vec![2u8], big), (vec![3u8], vec![6u8; 10])];
+            emit(c, &cfg, &es, false);
+        }
+    }
     // index_levels sweep (thorough: all 0..=255)
     let sweep: Vec<u8> = if thorough { (0..=255).collect() } else { vec![0, 1, 2, 3, 5, 8, 127, 128, 254, 255] };
     for levels in sweep {
